@@ -2,6 +2,7 @@ import Iec.Lemmas.Srv104
 import Iec.Model.Cli104
 import Iec.Lemmas.Srv104Unconf
 import Iec.Lemmas.Cli104Unconf
+import Iec.Lemmas.Srv104Deadlines
 /-
 C11 — CS104 acknowledgement duty (w, t2) and supervision timers (t1, t3).
 
@@ -21,7 +22,8 @@ cs104_connection.c: `client_ack_after_w`, `client_t2_ack`/`client_t2_not_before`
 and TESTFR/STARTDT/STOPDT act: exactly when), `client_t3_testfr`, `client_ack_before_stopdt`,
 `client_ack_before_close`.
 Over every history: `fewer_than_w_unacknowledged` (server, `Lemmas/Srv104Unconf.lean`) and
-`client_fewer_than_w_unacknowledged` (`Lemmas/Cli104Unconf.lean`).
+`client_fewer_than_w_unacknowledged` (`Lemmas/Cli104Unconf.lean`); after every tick: `deadlines_met_after_every_tick`
+(`Lemmas/Srv104Deadlines.lean`).
 -/
 namespace Iec.Props.C11
 open Iec.Srv104 Iec.KWindow
@@ -413,5 +415,20 @@ theorem client_fewer_than_w_unacknowledged (p : Iec.Cli104.Params) (hw : 0 < p.w
   obtain ⟨h, hp⟩ := Iec.Cli104.run_cuok p hw ops
   have := h.2
   rwa [hp] at this
+
+/-- **t1, t2, t3 are enforced at every tick, for every connection at once.** For EVERY server state with connections open:
+after `CS104_Slave_tick` (accept, reception, periodic tasks of all connections in slot order) every connection that is in
+use and still running
+  * is not past its t3 deadline unless a TESTFR act is outstanding (it was sent in this tick at the latest),
+  * has no TESTFR act outstanding for longer than t1,
+  * has no I-format APDU unacknowledged by the peer for t1 or longer,
+  * has not left received I-format APDUs unacknowledged for t2 or longer
+(measured on the clock value of the tick; a connection that violates one of them has been marked for closing instead).
+The processing of the connections that come later in the tick cannot disturb this: it touches no other connection's record
+(`Lemmas/Srv104Isolated.lean`). -/
+theorem deadlines_met_after_every_tick (s : Iec.Srv104.Slave) (hoc : (Iec.Srv104.accept s).openConnections > 0) (i : Nat)
+    (hu : ((Iec.Srv104.tick s).conn i).isUsed = true) (hr : ((Iec.Srv104.tick s).conn i).isRunning = true) :
+    Iec.Srv104.Deadlines (Iec.Srv104.tick s).p (Iec.Srv104.tick s).now ((Iec.Srv104.tick s).conn i) :=
+  Iec.Srv104.hcc_deadlines (Iec.Srv104.accept s) hoc i hu hr
 
 end Iec.Props.C11
